@@ -14,7 +14,7 @@
 (* ./m1 .. ./m8 can be appended to, ./d1/ is a maildir, ./x/m has no       *)
 (* directory.  Three slices of the input space (constant Slice), each      *)
 (* exhaustive in its own dimensions:                                       *)
-(*   "S" every home over 6 (Big: 7) .qmail names x 4 (5) kinds x 10 extensions *)
+(*   "S" every home over 6 .qmail names x 4 kinds (Big: 7 x 4 and 6 x 5) x 10 extensions *)
 (*   "I" every .qmail body of up to 3 (Big: 4) lines of the grammar, with  *)
 (*       and without x bit, with and without -n                            *)
 (*   "H" home modes x loop messages x hostile senders / recipients x owner *)
@@ -50,12 +50,13 @@ JoinLF(ls) == FlattenSeq([k \in 1..Len(ls) |-> ls[k] \o <<LF>>])
 Q(s) == S_DOTQMAIL \o s
 SNames == << Q(<<>>), Q(<<45,97>>), Q(<<45,97,45>> \o S_DEFAULT), Q(<<45>> \o S_DEFAULT), Q(<<45,97,45,98>>), Q(<<45,97,58,98>>) >>
           \o (IF Big THEN << Q(<<45,97,45,98,45>> \o S_DEFAULT) >> ELSE <<>>)
-SKinds == {"absent", "r600", "r602", "dir"} \cup (IF Big THEN {"r700"} ELSE {})
+SKinds == {"absent", "r600", "r602", "dir"}
 SFile(k, kind) == [nm |-> SNames[k], kind |-> (IF kind = "dir" THEN "dir" ELSE "reg"),
                    mode |-> (CASE kind = "r600" -> 384 [] kind = "r602" -> 386 [] kind = "r700" -> 448 [] OTHER -> 493),
                    body |-> (IF kind = "dir" THEN <<>> ELSE MFile(k) \o <<LF>>)]
-SHomes == { LET P == Asc({k \in 1..Len(SNames) : ch[k] # "absent"}) IN [j \in 1..Len(P) |-> SFile(P[j], ch[P[j]])]
-            : ch \in [1..Len(SNames) -> SKinds] }
+SHomesOver(nn, kinds) == { LET P == Asc({k \in 1..nn : ch[k] # "absent"}) IN [j \in 1..Len(P) |-> SFile(P[j], ch[P[j]])]
+                           : ch \in [1..nn -> kinds] }
+SHomes == IF Big THEN SHomesOver(7, SKinds) \cup SHomesOver(6, SKinds \cup {"r700"}) ELSE SHomesOver(6, SKinds)
 D_ == <<45>>
 SExts == { << <<>>, <<>> >>, << D_, <<>> >>, << D_, <<97>> >>, << D_, <<97,45,98>> >>, << D_, <<97,45,98,45,99>> >>, << D_, <<65>> >>,
            << D_, <<97,46,98>> >>, << D_, <<97,47,98>> >>, << D_, <<97,45>> >>, << D_, <<45>> >> }
@@ -89,7 +90,34 @@ HMsgs(local) == { Msg0,
 Cases_H == { MkCase(n, hm, f, <<>>, <<>>, l, s, MFile(8), m)
              : n \in {0, 1}, hm \in {493, 509, 1005, 495, 448}, f \in HFiles, l \in HLocals, s \in HSenders, m \in HMsgs(B_u) \cup HMsgs(<<117,10,88,58,121>>) }
 
-Cases == CASE Slice = "S" -> Cases_S [] Slice = "I" -> Cases_I [] Slice = "H" -> Cases_H
+\* ---- slice T: hand-computed test vectors (unit tests of P and of the monitor itself, see UnitTests / MonitorRejects)
+\* want = <<exit status, programs run, queue runs, messages stored>>
+TQ(mode, body) == << [nm |-> Q(<<>>), kind |-> "reg", mode |-> mode, body |-> body] >>
+TCase(n, hmode, files, dash, ext, local, sender, msg, want) ==
+  MkCase(n, hmode, files, dash, ext, local, sender, MFile(8), msg) @@ [want |-> want]
+\* (a fifth component 0 in want: the documents ask for "a failure" only, bounce and deferral both pass)
+Cases_T == {
+  TCase(0, 493, TQ(384, HBody), <<>>, <<>>, B_u, B_sender, Msg0, <<0, 1, 1, 2>>),
+  TCase(1, 493, TQ(384, HBody), <<>>, <<>>, B_u, B_sender, Msg0, <<0, 0, 0, 0>>),
+  TCase(0, 1005, TQ(384, HBody), <<>>, <<>>, B_u, B_sender, Msg0, <<111, 0, 0, 0>>),                        \* sticky home
+  TCase(0, 495, TQ(384, HBody), <<>>, <<>>, B_u, B_sender, Msg0, <<111, 0, 0, 0>>),                         \* home writable by others
+  TCase(0, 493, TQ(386, HBody), <<>>, <<>>, B_u, B_sender, Msg0, <<111, 0, 0, 0>>),                         \* .qmail writable by others
+  TCase(0, 493, TQ(384, HBody), <<>>, <<>>, B_u, B_sender, DtOf(B_u) \o Msg0, <<100, 0, 0, 0>>),            \* loop
+  TCase(0, 493, TQ(384, HBody), <<>>, <<>>, B_u, B_sender, <<72,58,120,10,10>> \o DtOf(B_u), <<0, 1, 1, 2>>),   \* the line in the body is no loop
+  TCase(0, 493, << [nm |-> Q(<<45,97,45>> \o S_DEFAULT), kind |-> "reg", mode |-> 384, body |-> MFile(3)] >>, D_, <<65,45,98>>, B_u, B_sender, Msg0, <<0, 0, 0, 1>>),
+  TCase(0, 493, << [nm |-> Q(<<45,97,45>> \o S_DEFAULT), kind |-> "reg", mode |-> 384, body |-> MFile(3)] >>, D_, <<120>>, B_u, B_sender, Msg0, <<100, 0, 0, 0>>),
+  TCase(0, 493, <<>>, <<>>, <<>>, B_u, B_sender, Msg0, <<0, 0, 0, 1>>),                                      \* no .qmail: defaultdelivery
+  TCase(0, 493, TQ(448, <<124>> \o Prog(0)), <<>>, <<>>, B_u, B_sender, Msg0, <<111, 0, 0, 0>>),             \* x bit and a program
+  TCase(0, 493, TQ(448, <<>>), <<>>, <<>>, B_u, B_sender, Msg0, <<0, 0, 0, 1>>),                             \* x bit, empty: defaultdelivery
+  TCase(0, 493, TQ(384, JoinLF(<< <<38,102,64,120>>, <<124>> \o Prog(1), MFile(1) >>)), <<>>, <<>>, B_u, B_sender, Msg0, <<0, 1, 1, 0>>),   \* 99
+  TCase(0, 493, TQ(384, JoinLF(<< <<38,102,64,120>>, <<124>> \o Prog(2), MFile(1) >>)), <<>>, <<>>, B_u, B_sender, Msg0, <<100, 1, 0, 0>>), \* 100
+  TCase(0, 493, TQ(384, JoinLF(<< MFile(1), <<124>> \o Prog(4), <<38,102,64,120>> >>)), <<>>, <<>>, B_u, B_sender, Msg0, <<100, 1, 0, 1>>), \* 64
+  TCase(0, 493, TQ(384, JoinLF(<< MFile(1), <<124>> \o Prog(5), <<38,102,64,120>> >>)), <<>>, <<>>, B_u, B_sender, Msg0, <<111, 1, 0, 1>>), \* 1
+  TCase(0, 493, TQ(384, JoinLF(<< <<>>, MFile(1) >>)), <<>>, <<>>, B_u, B_sender, Msg0, <<111, 0, 0, 0, 0>>),   \* first line blank
+  TCase(0, 493, TQ(384, JoinLF(<< MFile(1), S_LIST, B_d1s >>)), <<>>, <<>>, B_u, B_sender, Msg0, <<111, 0, 0, 1>>),
+  TCase(0, 493, TQ(384, HBody), <<>>, <<>>, <<117,10,88,58,121>>, <<97,10,88,58,121,64,116>>, Msg0, <<0, 1, 1, 2>>) }   \* line feeds in both addresses
+
+Cases == CASE Slice = "S" -> Cases_S [] Slice = "I" -> Cases_I [] Slice = "H" -> Cases_H [] Slice = "T" -> Cases_T
 
 (***************************************************************************)
 (* The program.                                                            *)
@@ -275,6 +303,20 @@ Obs == [rc |-> rc, ev |-> ev, fin |-> cnt, dl |-> dl, pl |-> 1, plan |-> plan, d
 \* the monitors
 Conforms == pc = "exit" => Judge(c, Obs) = ""
 SearchAgrees == pc = "owner" => sel = Search(c)
+
+\* slice T: the program arrives where the hand computation says, and the monitor is awake: an observation
+\* falsified in its exit status, by a dropped event, a stray file, a lost message, or a smuggled header line is rejected
+RECURSIVE SumSeq(_)
+SumSeq(q) == IF q = <<>> THEN 0 ELSE Head(q) + SumSeq(Tail(q))
+UnitTests == (Slice = "T" /\ pc = "exit") => <<rc, Len(PEv(Obs)), Len(QEv(Obs)), SumSeq(cnt)>> = SubSeq(c.want, 1, 4)
+Inject(d) == [d EXCEPT !.data = SubSeq(@, 1, Len(@) - Len(c.msg)) \o <<88,58,121,10>> \o c.msg]
+Wrong(o) == { [o EXCEPT !.rc = r] : r \in (IF Len(c.want) = 5 THEN {0} ELSE {0, 100, 111}) \ {o.rc} }
+            \cup { [o EXCEPT !.stray = 1] }
+            \cup (IF o.ev # <<>> THEN { [o EXCEPT !.ev = Tail(@)] } ELSE {})
+            \cup (IF Len(o.ev) >= 2 THEN { [o EXCEPT !.ev = <<@[Len(@)]>> \o SubSeq(@, 1, Len(@) - 1)] } ELSE {})    \* forward first
+            \cup (IF o.dl # <<>> THEN { [o EXCEPT !.fin = [x \in 1..NT |-> 0], !.dl = <<>>], [o EXCEPT !.dl[1] = Inject(@)] } ELSE {})
+            \cup (IF c.n = 1 /\ o.plan # <<>> THEN { [o EXCEPT !.plan = Tail(@)] } ELSE {})
+MonitorRejects == (Slice = "T" /\ pc = "exit") => \A o2 \in Wrong(Obs) : Judge(c, o2) # ""
 
 \* sanity (no vacuous run): each of these must be *violated* when given as an invariant
 NeverBounce == ~(pc = "exit" /\ rc = 100)
